@@ -62,7 +62,7 @@ impl Monitor for C09 {
 		"C09"
 	}
 	fn rule(&self) -> String {
-		"for each version triple a structurally valid zero-frame two-player replay of that version is generated (newest known layout for versions above 3.16), read with slippi::read, and handed to slippi::write and peppi::write. Outcomes are classified Ok / version refusal (error mentioning 'unsupported version') / other error / panic. Violations: Ok above 3.16.0 (tuple order major, minor, patch) or a version refusal at or below it. quick: boundary neighbourhoods in every component, all (major,minor,0), all patches of 3.15/3.16/3.17, 40000 seeded random triples; thorough: all 2^24 triples (exhaustive). distinct = (side of the boundary, format, outcome, major) classes.".into()
+		"for each version triple a structurally valid two-player replay of that version is generated (zero frames for 7 of 8 versions, two frames otherwise) (newest known layout for versions above 3.16), read with slippi::read, and handed to slippi::write and peppi::write. Outcomes are classified Ok / version refusal (error mentioning 'unsupported version') / other error / panic. Violations: Ok above 3.16.0 (tuple order major, minor, patch) or a version refusal at or below it. quick: boundary neighbourhoods in every component, all (major,minor,0), all patches of 3.15/3.16/3.17, 40000 seeded random triples; thorough: all 2^24 triples (exhaustive). distinct = (side of the boundary, format, outcome, major) classes.".into()
 	}
 	fn assumptions(&self) -> Vec<String> {
 		vec!["a panic or non-version error on the accepting side (e.g. the known zero-field-struct panic for 3.0-3.6) is not a C09 verdict; it is counted and belongs to C02/C14".into()]
@@ -88,7 +88,9 @@ impl Monitor for C09 {
 		let mut rng = Rng::derive(7, idx as u64);
 		for ver in list {
 			let above = ver > MAX;
-			let spec = gen::base_spec(ver, vec![(0, false), (1, false)], 0);
+			// mostly zero-frame games (cheap); every 8th version gets frames, every 16th Ice Climbers
+			let h = ver.0 as usize * 31 + ver.1 as usize * 7 + ver.2 as usize;
+			let spec = gen::base_spec(ver, if h % 16 == 0 { vec![(0, true), (2, false)] } else { vec![(0, false), (1, false)] }, if h % 8 == 0 && (ver.0, ver.1) != (0, 0) { 2 } else { 0 });
 			let built = gen::build(&spec, &mut rng);
 			let g1 = common::slp_read(&built.bytes, false, false);
 			let g2 = common::slp_read(&built.bytes, false, false);
